@@ -13,8 +13,11 @@ import json
 import hostlib as H
 import vlib
 
-THEOREMS = ["C16_terminates", "C16_fuel_bound", "C16_session_terminates", "C16_reach", "C16_links", "C16_notfound", "C16_all_entered", "C16_once", "C16_index_terminates"]
+THEOREMS = ["C16_terminates", "C16_fuel_bound", "C16_session_terminates", "C16_reach", "C16_links", "C16_notfound", "C16_all_entered", "C16_once", "C16_index_terminates", "C16_model_is_source"]
 TRUSTED = [
+    "tools/translate/t_filesystem.py (parser + operation table: renders the CURRENT file_system.rs / analysis.rs / vfs.rs into coq/gen/GenFileSystem.v) "
+    "and the contracts of coq/model/FsOps.v (HashMap / Vec / VecDeque / loops / salsa inputs / env / disk / trait FileSystem); "
+    "list_includes is tied by shape only (its meaning over the item abstraction is FsOps.ast_list_includes)",
     "Coq 8.16.1 kernel (vm_compute only inside Examples)",
     "abstraction of the parse: a text is represented by its Include/Class descendants in document order "
     "(computed by the harness from the real parse tree with the public AST API, same scan as list_includes / document_link.rs); "
@@ -202,7 +205,7 @@ def report(ctx, viol, ties, fails):
 
 def run(ctx):
     bindir = vlib.build_harness(False, bins=["hostdrive"])
-    fails = vlib.proof_step(ctx, "TG.Props.C16", THEOREMS, ["props/C16.vo"], TRUSTED, translators=[])
+    fails = vlib.proof_step(ctx, "TG.Props.C16", THEOREMS, ["props/C16.vo"], TRUSTED, translators=["t_filesystem"])
     exe = vlib.build_model("host")
     ctx.cov["unreached_template_reached_on_this_tree"] = H.calibrate(bindir)
     cases, exhaustive, nrand = gen_cases(ctx)
